@@ -53,6 +53,35 @@ def parse_case(kind, obj, text):
     return c
 
 
+def pair_cases(seed):
+    """statelessness: two expressions that differ only by blanks INSIDE a string literal or a bracketed name, parsed one
+    after the other (and the first one again): each tree must be the one its own text denotes"""
+    rnd = random.Random(seed)
+    out = []
+    base = rand_flat(rnd, rnd.choice([2, 3]))
+    if base['k'] == 'chain':
+        base = {'k': 'grp', 'e': base}
+
+    def widen(f):
+        k = f['k']
+        if k == 'str':
+            return {'k': 'str', 'v': [c for ch in f['v'] for c in ([32, 32] if ch == 32 else [ch])]}
+        if k == 'var' and ' ' in f['v']:
+            return {'k': 'var', 'v': f['v'].replace(' ', '  ')}
+        if k == 'chain':
+            return {'k': 'chain', 'operands': [widen(o) for o in f['operands']], 'ops': f['ops']}
+        if k in ('grp', 'un'):
+            return dict(f, e=widen(f['e']))
+        if k == 'call':
+            return dict(f, args=[widen(a) for a in f['args']])
+        return f
+    a = {'k': 'chain', 'operands': [base, {'k': 'str', 'v': A.cps('a b')}, {'k': 'var', 'v': 'with space'}], 'ops': ['+', '&&']}
+    b = widen(a)
+    for f in (a, b, a):
+        out.append(parse_case('flat', f, flat_text(f, 0)))
+    return out
+
+
 def canaries(case):
     out = []
     if case['kind'] == 'flat' and case['outcome'] == 'ok':
@@ -124,6 +153,8 @@ def run(ctx, replay=None):
         toks = rand_tokens(rnd)
         jobs.append(('tokens', toks, tokens_text(toks, rnd)))
     cases = F.pmap(parse_case, jobs)
+    for cs in F.pmap(pair_cases, [(ctx.seed * 11 + i,) for i in range(ctx.pick(400, 8000))]):
+        cases += cs
     F.judge(ctx, 'Trace_Expr', cases, canaries, key_fields=('text',),
             describe=lambda c: {'kind': c['kind'], 'text': c['text'][:200], 'outcome': c['outcome']},
             nontrivial=lambda c: True)
